@@ -88,3 +88,118 @@ PROPS = {
         technique=TECH,
     ),
 }
+
+BTECH = "contract-based deductive verification of the functions within the verifier's reach + bounded run-time contract on DDLParser.run (labelled BOUNDED; never counted as proved)"
+
+PROPS.update({
+    "C02": dict(
+        contracts=["c01", "c02"], bounded=True, level="other",
+        explanation="deductive: the column-option productions (effect + frame from an arbitrary column state), the key / unique / reference post-processing of BaseData (fold-form over the column list); "
+                    "BOUNDED deciding step for the grammar-level folding: tables generated from an abstract model of inline and table-level PRIMARY KEY / UNIQUE / CHECK / FOREIGN KEY declarations",
+        level_text="per-function contracts on the productions and on the post-processing are proved; which alternatives the LALR tables select and the table-level folding of constraints are decided by a bounded run-level contract",
+        level_note="p_expression_table's constraint branches and process_constraints_and_refs are bounded only; open known findings are listed in known_findings.json",
+        technique=BTECH,
+    ),
+    "C04": dict(
+        contracts=["c04"], bounded=True, level="other",
+        explanation="deductive: table-id normalisation (quoting / case insensitive, schema-sensitive), registry lookup raises for unknown ids, alter effects on the column list; "
+                    "BOUNDED deciding step: scripts of 1-4 tables followed by ALTER / CREATE INDEX sequences with every target spelling, model-based oracle + frame check on untargeted tables",
+        level_text="routing and registry functions proved per function; the effect of statement sequences is decided by a bounded run-level contract against a model",
+        level_note="grammar actions for ALTER / INDEX are bounded only in this revision",
+        technique=BTECH,
+    ),
+    "C05": dict(
+        contracts=["lexer", "c05"], bounded=True, level="other",
+        explanation="deductive: relational lexer contracts (a keyword in any letter case is typed and upper-cased like its upper-case spelling, an ID keeps its text); "
+                    "BOUNDED deciding step for layout: re-renderings (case pattern per keyword x separator per gap x line-break set, CRLF) of generated statements and of the regression corpus",
+        level_text="layout invariance is decided by a bounded metamorphic contract; the case-insensitive keyword typing is proved for the lexer contexts under contract",
+        level_note="pre_process_data / regex_n (look-around regexes) are outside the deductive reach; open known findings (string literal at a line start) are listed in known_findings.json",
+        technique=BTECH,
+    ),
+    "C07": dict(
+        contracts=["c07"], bounded=True, level="other",
+        explanation="deductive: the productions and helpers that carry a literal (p_default incl. digits->int for any length, p_string, p_comment, p_collate, value lists, check_spec) copy it verbatim; "
+                    "BOUNDED deciding step for the transport through the regex pre-processor and the lexer: literals over a 39-symbol alphabet in every literal position",
+        level_text="verbatim copying is proved for the grammar actions; the pre-processor transport is decided by bounded enumeration of literals, with the known alterations listed as findings",
+        level_note="pre_process_data, equal_without_space, process_in_comment, t_STRING_BASE are regexes outside the deductive reach",
+        technique=BTECH,
+    ),
+    "C09": dict(
+        contracts=["c09"], bounded=True, level="proof",
+        explanation="bracket counter (lt_open' = lt_open + #'<' - #'>'), LT / RT typing, inner-comma typing, type text assembly (p_tid), the five size forms (get_size, p_column) proved for all token texts; "
+                    "bounded run-level contract over the recursive type grammar as cross-check of alternative selection",
+        level_text="the nesting counter, bracket token typing, inner-comma typing, in-order assembly of the type text and the size forms (n), (p,s), (max), (n CHAR), (*,s) are proved for all values at function level",
+        level_note="that the LALR tables select these alternatives for a type expression is observed by the bounded runs (type grammar to depth 3-5), not proved",
+        technique=TECH,
+    ),
+    "C11": dict(
+        contracts=["c11"], bounded=True, level="other",
+        explanation="deductive: clause productions set exactly their key and leave every other key of the table untouched (effect + frame), pre_load_mods routing of declared fields vs table_properties; "
+                    "BOUNDED deciding step: 41 clause kinds x table bodies x orders x {owning mode, sql}, metamorphic oracle (with clauses == without clauses + catalogue keys)",
+        level_text="clause orthogonality is decided by a bounded metamorphic contract; the clause productions under contract are proved to write only their own key",
+        level_note="after-columns keyword tables and reduce/reduce resolution are observed, not proved",
+        technique=BTECH,
+    ),
+    "C18": dict(
+        contracts=["c18", "c07"], bounded=True, level="other",
+        explanation="deductive: type / domain / schema / database / tablespace productions build one dict with the documented keys and verbatim names; "
+                    "BOUNDED deciding step: every option subset / name form / value-list length, alone and between other statements",
+        level_text="entity productions under contract are proved per alternative; alternative selection and statements as a whole are decided by a bounded run-level contract",
+        level_note="open known findings (size-less DOMAIN, IF NOT EXISTS ... AUTHORIZATION, ARRAY inside a type name) are listed in known_findings.json",
+        technique=BTECH,
+    ),
+    "C19": dict(
+        contracts=["c19"], bounded=True, level="other",
+        explanation="deductive: the CLI extension filter (exactly .sql .ddl .hql .bql by the last dot-separated segment); "
+                    "BOUNDED deciding step: temp-dir runs of parse_from_file / dump / sdp CLI (17 encodings, file names with dots, target directories, flag combinations) against the in-memory API",
+        level_text="file / dump / CLI agreement is decided by a bounded run-time contract in temporary directories; the pure extension filter is proved",
+        level_note="the OS, argparse and codecs are trusted (A-OS)",
+        technique=BTECH,
+    ),
+})
+
+PROPS.update({
+    "C08": dict(
+        contracts=["c08"], bounded=True, level="other",
+        explanation="deductive: whole-line comment handling of the line pre-processor (a whole-line -- / # comment yields an empty code line and leaves the statement state untouched); "
+                    "BOUNDED deciding step: insertion of every comment style with quote-free text at every position of generated scripts and the corpus, metamorphic oracle (entities unchanged, comments only from comments, in order)",
+        level_text="comment transparency is decided by a bounded metamorphic contract; the whole-line comment path of the line pre-processor is proved",
+        level_note="process_inline_comments / process_in_comment (split / regex search over arbitrary text) are outside the deductive reach; open known findings are listed in known_findings.json",
+        technique=BTECH,
+    ),
+    "C10": dict(
+        contracts=["c10", "c16"], frames=["output-mode-not-read-before-output"], bounded=True, level="other",
+        explanation="deductive: the output filter (filter_out_output / to_dict) keeps every field without exclusion metadata for every init_data and every mode, dialect fields pass only in their documented modes; "
+                    "run() rejects exactly the unknown modes; frame: output_mode is not read before Output is built (parsed statements are mode independent); "
+                    "BOUNDED deciding step: generated scripts and the corpus x 15 modes x flags compared with the default mode on common content",
+        level_text="mode independence of parsing is a proved frame obligation and the per-field filter is proved; equality of common content across the 15 modes is decided by a bounded run-level contract",
+        level_note="dataclass construction of the per-mode classes (type(...) + dataclass) is A-DC; Redshift / Oracle post_process are bounded only",
+        technique=BTECH,
+    ),
+    "C12": dict(
+        contracts=["c12", "c01", "c17"], bounded=True, level="other",
+        explanation="deductive: every column value leaving p_defcolumn carries the eight documented keys with boolean unique / nullable, to_dict keeps the nine table keys in every mode, "
+                    "run(json_dump=True) returns json.dumps of what it returns otherwise; BOUNDED deciding step: all generators and the corpus x modes x flags: shape, JSON round trip",
+        level_text="shape invariants of the column and table skeleton are proved for the productions under contract; the whole-result shape and JSON-serialisability are decided by a bounded run-level contract",
+        level_note="alternatives without a contract (about 60 % of the grammar) are bounded only",
+        technique=BTECH,
+    ),
+    "C20": dict(
+        bounded=True, level="other", bounded_timeout=3000,
+        explanation="no repository function computes the LALR tables (ply.yacc does); the property is stated as a run-time contract on Parser.__init__ "
+                    "(tables in use == fresh generation from the declared grammar) and checked exhaustively over the property's finite cache-state space "
+                    "{valid, missing, stale signature, older table version, genuinely older grammar, unwritable} with corpus + generated scripts in each state",
+        level_text="BOUNDED run-time contract, exhaustive over the cache states of the statement: tables in use equal a fresh generation; results equal across states",
+        level_note="deduction not applicable to PLY's generator (3 500 external lines); equality of tables gives equality of results for all inputs only by A-PLY-LR",
+        technique="run-time contract on Parser.__init__ (tables in use == LALR(declared grammar)) checked in every cache state; bounded, never counted as proved",
+    ),
+})
+PROPS["C01"].update(
+    contracts=["lexer", "c01", "c07", "c09"],
+    explanation="deductive: every word in a column-name position is typed ID and kept verbatim (lexer contract); column / defcolumn productions: each option sets exactly its own attribute from an arbitrary column state "
+                "(any option order), sizes and defaults exact; the table production appends each finished column at the end of an opaque prefix (any number of columns); "
+                "BOUNDED deciding step for alternative selection and text pre-processing: generated tables compared with the abstract schema",
+    level_text="the productions that build and collect column dicts are proved per alternative (effect + frame, unbounded in the number of columns and in option order); "
+               "that the LALR tables select these alternatives and the regex pre-processor are decided by a bounded run-level contract over generated schemas",
+    level_note="LALR alternative selection and the regex pre-processor are observed (bounded), not proved",
+)
